@@ -48,7 +48,12 @@ void Session::setOpType(int inOperation) { SFX(SETOPTYPE_N)++; SFX(SETOPTYPE_LAS
 void Session::resetOp() { SFX(RESETOP_N)++; }
 bool Session::isRW() { return SES(RW) != 0; }
 CK_STATE Session::getState() { return vpi_getState(); }
+#ifdef VP_ENV_DISTINCT_SM_HANDLE
+// the session manager's own id of a session is not the handle the application holds (HandleManager issues that one)
+CK_SESSION_HANDLE Session::getHandle() { return SES(HSESSION) ^ 0x5a5aUL; }
+#else
 CK_SESSION_HANDLE Session::getHandle() { return SES(HSESSION); }
+#endif
 bool Session::getReAuthentication() { return SES(REAUTH) != 0; }
 void Session::setReAuthentication(bool v) { SFX(SETREAUTH_N)++; SFX(SETREAUTH_LAST) = v ? 1 : 0; }
 HashAlgo::Type Session::getHashAlgo() { return (HashAlgo::Type)SES(HASHALGO); }
